@@ -14,12 +14,12 @@ def run():
     except ImportError:
         pass
     core.coq_makefile()
-    rc, out, err = core.sh("timeout 3000 make -j%d" % core.NCPU, cwd=core.COQ, timeout=3100)
+    # -k: one family that fails to build must not take the others down; each check re-checks its own target
+    rc, out, err = core.sh("timeout 3000 make -k -j%d" % core.NCPU, cwd=core.COQ, timeout=3100)
     sys.stdout.write(out.decode("utf8", "replace")[-3000:])
     if rc != 0:
         sys.stdout.write(err.decode("utf8", "replace")[-5000:])
-        print("setup: Coq build failed")
-        return 1
+        print("setup: WARNING some Coq targets failed to build (the affected checks will report it)")
     print("setup: coq built in %.0fs" % (time.time() - t0))
     core.build_repo()
     print("setup: repo (debug, hooks on) built %.0fs" % (time.time() - t0))
@@ -31,11 +31,20 @@ def run():
             core.build_harness(h)
             print("setup: harness %s built %.0fs" % (h, time.time() - t0))
     from . import extract
-    for name, v, drv in EXTRACTIONS:
-        extract.build(name, v, drv)
+    exd = os.path.join(core.VERIF, "extract")
+    found = []
+    for f in sorted(os.listdir(exd)):
+        if f.endswith("Extract.v"):
+            nm = f[:-len("Extract.v")].lower()
+            if os.path.exists(os.path.join(exd, nm + "_driver.ml")):
+                found.append((nm, f, nm + "_driver.ml"))
+    for name, v, drv in found:
+        try:
+            extract.build(name, v, drv)
+        except core.BuildError as ex:
+            print("setup: WARNING extraction %s failed: %s" % (name, str(ex)[-500:]))
+            continue
         print("setup: extraction %s built %.0fs" % (name, time.time() - t0))
     print("setup: done in %.0fs" % (time.time() - t0))
     return 0
 
-
-EXTRACTIONS = [("codec", "CodecExtract.v", "codec_driver.ml")]
